@@ -59,10 +59,13 @@ def body(ctx: H.BaseCtx):
         in_names = [tuple(s["names"]) if s.get("kind", "poly") == "poly" else ("q0",) for s in case["operands"]]
         if aligns_names:
             want = expected_names(in_names) if in_names else None
+            accept = {want}
+            if len(set(in_names)) == 1:
+                accept.add(in_names[0])  # already sharing one name tuple (in whatever order): "aligning changes nothing" is acceptable too
             got = {tuple(o.names) for o in outs}
             if len(got) != 1:
                 ctx.fail("align", "names differ after %s: %s" % (case["fn"], sorted(got)))
-            elif want and got != {want}:
+            elif want and not got <= accept:
                 ctx.fail("align", "names %s, expected union in index order %s" % (sorted(got)[0], want))
         if aligns_exps:
             e0 = outs[0].exponents.tolist()
@@ -114,7 +117,7 @@ def gen_cases(tier: str, seed: int) -> List[Dict]:
         [(2,), (1, 2), (2, 1, 1), ()],
         [(1, 2, 2), (2, 2)],
     ]
-    name_choices = [("q0",), ("q1",), ("q0", "q1"), ("q0", "q2"), ("q2", "q10"), ("q10",), ("q1", "q2", "q10"), ("q3", "q12")]
+    name_choices = [("q0",), ("q1",), ("q0", "q1"), ("q0", "q2"), ("q2", "q10"), ("q10",), ("q1", "q2", "q10"), ("q3", "q12"), ("q1", "q0"), ("q10", "q2"), ("q2", "q0", "q1")]
     n = 0
     reps = 8 if quick else 700
     for _ in range(reps):
